@@ -1,7 +1,7 @@
 #!/usr/bin/env python3
 """Apply each benign refactoring patch to /repo, run ALL quick checks, undo. Any non-zero exit is a false alarm."""
 import json, pathlib, subprocess, sys
-dirs = [pathlib.Path(a) for a in sys.argv[1:]]
+dirs = [pathlib.Path(a).resolve() for a in sys.argv[1:]]
 man = json.load(open('/verif/MANIFEST.json'))
 claimed = [c['property_id'] for c in man['checks']]
 for d in dirs:
